@@ -149,6 +149,41 @@ func runC10Lengths(res *Result, drv *DriverPool, tier string, seed int64) {
 				res.Disagree(Violation{Sig: "length-model-mismatch|px", Kind: "input", What: fmt.Sprintf("ParsePixel(%q) = %v, %v; the Model: %v", t, px, perr, mv), Input: in})
 			}
 		}
+		// ParseSpacing (one, two or four values)
+		var sp *styles.Spacing
+		var sperr error
+		if p := safely(func() { sp, sperr = styles.ParseSpacing(t) }); p != nil {
+			res.Violate(Violation{Sig: "panic|ParseSpacing", Kind: "input", What: fmt.Sprint("ParseSpacing panicked: ", p), Input: in})
+			return
+		}
+		if got, ok := ask("sp"); ok {
+			f := strings.Fields(got)
+			switch {
+			case got == "empty":
+				if sp != nil || sperr != nil {
+					res.Disagree(Violation{Sig: "length-model-mismatch|sp", Kind: "input", What: fmt.Sprintf("ParseSpacing(%q) = %v, %v; the Model: no value, no error", t, sp, sperr), Input: in})
+				}
+			case got == "reject":
+				res.Count("sp=not-1-2-4-values")
+				if sperr == nil {
+					res.Disagree(Violation{Sig: "length-model-mismatch|sp", Kind: "input", What: fmt.Sprintf("ParseSpacing(%q) = %v without error; the Model: not one, two or four values", t, sp), Input: in})
+				}
+			case len(f) == 12:
+				var mv [4]float64
+				all := true
+				for k := 0; k < 4; k++ {
+					v, okv := decVal(f[3*k : 3*k+3])
+					mv[k], all = v, all && okv
+				}
+				if !all {
+					break
+				}
+				res.Count("sp=four-sides")
+				if sperr != nil || sp == nil || sp.Top != mv[0] || sp.Right != mv[1] || sp.Bottom != mv[2] || sp.Left != mv[3] {
+					res.Disagree(Violation{Sig: "length-model-mismatch|sp", Kind: "input", What: fmt.Sprintf("ParseSpacing(%q) = %v, %v; the Model: %v", t, sp, sperr, mv), Input: in})
+				}
+			}
+		}
 		if got, ok := ask("bw"); ok && got != "none" {
 			if mv, okv := decVal(strings.Fields(got)); okv && bw != int(mv) {
 				res.Disagree(Violation{Sig: "length-model-mismatch|bw", Kind: "input", What: fmt.Sprintf("ParseBorderWidth(%q) = %d; the Model: int(%v)", t, bw, mv), Input: in})
